@@ -345,6 +345,11 @@ fn highest_bit_lessthan_scaled(a: &BigUint, b: &BigUint, scale: u64) -> bool {
     }
 }
 
+#[cfg(bigdecimal_verif)]
+pub(crate) fn verif_highest_bit_lessthan_scaled(a: &BigUint, b: &BigUint, scale: u64) -> bool {
+    highest_bit_lessthan_scaled(a, b, scale)
+}
+
 #[cfg(test)]
 mod test {
     use super::*;
